@@ -190,6 +190,27 @@ def run(ch, tier):
         if kind == 'history' and ch.s('faults').choice(3) == 1:
             sd.pop('memory', None)
             res.stats['valid_history_without_memory'] += 1
+    declared = sorted(sp.states)
+    if ch.s('faults').choice(4) == 1:
+        # valid variation: one state is called "<name> " (or " <name>") everywhere it is declared or referred to
+        victim = ch.s('faults').pick(sorted(sp.states))
+        newname = victim + ' ' if ch.s('faults').flag(1, 2) else ' ' + victim
+
+        def ren(d):
+            if d.get('name') == victim:
+                d['name'] = newname
+            for k in ('initial', 'memory'):
+                if d.get(k) == victim:
+                    d[k] = newname
+            for t in d.get('transitions', []):
+                if t.get('target') == victim:
+                    t['target'] = newname
+            for k in ('states', 'parallel states'):
+                for c in d.get(k, []):
+                    ren(c)
+        ren(doc['statechart']['root state'])
+        declared = sorted(newname if n == victim else n for n in sp.states)
+        res.stats['valid_name_with_edge_whitespace'] += 1
     cfp = fp(sp.fingerprint())
     outcome, sc = attempt(doc)
     if outcome != 'accepted':
@@ -198,9 +219,9 @@ def run(ch, tier):
     why = audit(sc)
     if why:
         return res.fail('accepted-chart-unsound', 'accepted statechart fails the audit: %s' % why, document=dump(doc)[:2500])
-    if sorted(sp.states) != sc.states or len(sc.transitions) != len(sp.trans):
+    if declared != sc.states or len(sc.transitions) != len(sp.trans):
         return res.fail('accepted-chart-differs', 'accepted statechart has states %r / %d transitions, document declares %r / %d' % (
-            sc.states, len(sc.transitions), sorted(sp.states), len(sp.trans)), document=dump(doc)[:2500])
+            sc.states, len(sc.transitions), declared, len(sp.trans)), document=dump(doc)[:2500])
     faults = fault_list(doc)
     fs = ch.s('faults')
     if tier == 'thorough':
